@@ -228,9 +228,14 @@ func handle(l cout.Log, c net.Conn, h connServer, a string) {
 		return
 	}
 	switch v.next.Clear(); {
-	case n.Flags&com.FlagChannel != 0 || v.next.Flags&com.FlagChannel != 0:
 	case v.host == nil:
-		fallthrough
+		// An unregistered client was only told to register: there is no Session
+		// a Channel could run on, whatever Flags the Packet carried.
+		c.Close()
+		v.close()
+		v = nil
+		return
+	case n.Flags&com.FlagChannel != 0 || v.next.Flags&com.FlagChannel != 0:
 	case !v.host.chanStart():
 		c.Close()
 		v.close()
